@@ -676,6 +676,7 @@ func (v *Verifier) evalBuiltin(s *State, name string, call *ast.CallExpr) []*Ter
 		t := v.typeOf(call.Args[0])
 		ref := v.allocRef(s)
 		v.storePtr(s, ref, t, v.zeroOf(t))
+		v.zeroGhost(s, ref, t)
 		return []*Term{ref}
 	case "copy":
 		return []*Term{v.builtinCopy(s, call)}
